@@ -299,8 +299,41 @@ def gen_keepgoing_case(r, nmut=None):
     return c
 
 
+def gen_wide_case(r):
+    """a flat tree with more directories than any batching of the directory scan could hide (65-140), a few of them wrong"""
+    c = GT.Case()
+    t = GT.Tree()
+    n = r.choice([65, 66, 70, 129, 140])
+    lines = []
+    dirs = ['']
+    files = []
+    for k in range(n):
+        d = 'dir%03d' % k
+        t.add_dir(d)
+        dirs.append(d)
+        data = b'content %d\n' % k
+        t.add_file(d + '/file', data)
+        files.append(d + '/file')
+        lines.append(ET.entry_line('DATA', d + '/file', data, ['SHA1']))
+    t.add_file('Manifest', ('\n'.join(lines) + '\n').encode())
+    bad = r.sample(range(n), r.choice([n, n, n, n - 1, 5]))
+    for k in bad:
+        node = t.nodes[t.lookup('dir%03d/file' % k)]
+        node['data'] = b'changed %d\n' % k
+        node['size'] = len(node['data'])
+    c.tree = t
+    c.meta.update(dirs=dirs, files=files, manifests=['Manifest'], mutations=['content x%d of %d directories' % (len(bad), n)], order_seed=r.randint(0, 9))
+    c.ops = [['verify', '', r.choice([1, 1, 2, 4]), []]]
+    return c
+
+
 def c07(ctx):
-    res = c01_impl(ctx, 3000, 25000, gen_keepgoing_case, 'tree:keep-going',
+    wide = iter([True] * (6 if ctx.tier == 'quick' else 40))
+    base_gen = gen_keepgoing_case
+
+    def gen_mixed(r):
+        return gen_wide_case(r) if next(wide, False) else base_gen(r)
+    res = c01_impl(ctx, 3000, 25000, gen_mixed, 'tree:keep-going',
                    'keep-going verification: handler calls / result differ from the reference (C07: every offending path once, '
                    'result false iff a call answered False)')
     multi = sum(1 for c, i, m in res if i[0] == 'ok' and any(x[0] == 'ok' and isinstance(x[1], list) and len(x[1]) == 2
@@ -500,7 +533,9 @@ def chain_case(r):
     if r.random() < 0.5:
         for _ in range(r.randint(1, 3)):
             pre.append(r.choice([['find_timestamp'], ['find_timestamp'], ['find_path_entry', 'g0'], ['find_dist_entry', 'absent.tar', ''],
-                                 ['verify_path', 'g0'], ['loaded']]))
+                                 ['verify_path', 'g0'], ['loaded'],
+                                 # a pending (unsaved) update of a top-level file: the top-level Manifest is queued for rewriting
+                                 ['update_path', 'g0', 'DATA', [['MD5', 'SHA1']]], ['update_path', 'g0', 'DATA', [['MD5', 'SHA1']]]]))
     c.ops = pre + c.ops
     c.meta['warm_up'] = len(pre)
     # the link that must be found broken: the Manifest of level k as recorded at level k-1
@@ -841,7 +876,7 @@ def gen_update_case(r, profile='default', rounds=None):
     c = GT.Case()
     t, files, written = GT.build_consistent(r, c)
     muts = []
-    prior = r.choice(['consistent', 'stale', 'stale', 'absent', 'unregistered', 'stale+unregistered'])
+    prior = r.choice(['consistent', 'stale', 'stale', 'absent', 'unregistered', 'stale+unregistered', 'size-only'])
     if prior == 'absent':
         for p in list(written):
             d, name = os.path.split(p)
@@ -884,8 +919,26 @@ def gen_update_case(r, profile='default', rounds=None):
     if t.link_paths():
         # a Manifest reachable under two names (finding D20): recompression through one of them is not compared
         wm = None
+    if prior == 'size-only':
+        # an otherwise consistent tree in which one entry of the top-level Manifest records a wrong size beside the right
+        # digests - and the update asks for exactly the hash set that entry carries
+        top = t.nodes[t.lookup('Manifest')]
+        lines = top['data'].decode('utf8').split('\n')
+        ks = [k for k, x in enumerate(lines) if x.split()[:1] and x.split()[0] in ('DATA', 'MISC', 'EBUILD') and len(x.split()) >= 5
+              and all(h in GT.GOOD_HASHES for h in x.split()[3::2])]
+        if ks:
+            k = r.choice(ks)
+            f = lines[k].split()
+            f[2] = str(int(f[2]) + r.choice([1, 7, 4242]))
+            lines[k] = ' '.join(f)
+            top['data'] = '\n'.join(lines).encode('utf8')
+            top['size'] = len(top['data'])
+            hashes = sorted(f[3::2])
+            muts.append('size-only:' + f[1])
     c.opts = (hashes, sort, wm, fmt, profile, None, None, False)
     upath = r.choice([''] * 3 + [d for d in c.meta['dirs'] if d and not d.startswith('.') and '/.' not in d])
+    if prior == 'size-only':
+        upath = ''
     ops = [['update', upath, [], []],
            ['save', [], 1 if r.random() < 0.15 else 0, [], [], []],
            ['files'], ['reload'], ['verify', upath, 1, []]]
